@@ -84,6 +84,10 @@ def cls_str(c):
 
 import struct
 
+EVENT_NAMES = ['reorder', 'parse', 'emit', 'retrieve', 'scan', 'transmit', 'collect', 'collect_seq',
+               'x-scan-candidate', 'x-scan-known', 'x-parse-adopt', 'x-parse-discard', 'x-retr-abort',
+               'x-reorder-reject', 'x-advance-drop', 'x-eof-drop']
+
 def _pack_case(c):
     out = []
     argv = [a if isinstance(a, bytes) else a.encode() for a in c['argv']]
@@ -130,7 +134,8 @@ def batch(variant, cases, jobs=None, outdir=None, timeout=None, workdir=None):
         f = line.split('\t')
         res.append({'idx': int(f[0]), 'kind': f[1], 'code': int(f[2]), 'stdout_len': int(f[3]), 'stdout_hash': f[4],
                     'stderr_len': int(f[5]), 'stderr_hash': f[6], 'inv': int(f[7]), 'sanitizer': int(f[8]),
-                    'ncp': int(f[9]), 'stderr_head': f[10] if len(f) > 10 else ''})
+                    'ncp': int(f[9]), 'stderr_head': f[10] if len(f) > 10 else '',
+                    'events': dict(zip(EVENT_NAMES, [int(v) for v in f[11].split(',')])) if len(f) > 11 and f[11] else {}})
     if len(res) != len(cases):
         common.harness_error('lbzx batch: %d results for %d cases' % (len(res), len(cases)))
     return res
